@@ -4,7 +4,7 @@
    by construction; the two fuelled recursions are the call-tree BFS and resolve_import); (b) which modelled
    stages can only end in a result or the fatal diagnostic (diagnostics / threshold cluster, rattr_results
    validation, cache reading); (c) kernel-checked witnesses that the faithful model RAISES on the listed shapes
-   and never terminates on a re-export cycle.  Crashes in code that is not modelled can only be met by the
+   (the re-export cycle that used to recurse without bound is cut since fix 99a8b20: C07_import_resolver_terminates).  Crashes in code that is not modelled can only be met by the
    generated runs of ./check C07, which are testing and are labelled so in the evidence. *)
 From RattrV Require Import Base Str PyAst Naming Context CallSwaps FuncAn Results Imports Annot ImpProofs ResFuel C07Proofs C11Proofs.
 Open Scope string_scope.
@@ -13,12 +13,12 @@ Open Scope list_scope.
 (* the import BFS terminates: with a finite universe of origins and at most B imports per module the
    explicit fuel |queue| + |U| * B + 1 is never exhausted - for every import graph, cycles included *)
 Theorem C07_import_bfs_terminates :
-  forall module_of origin_of blacklisted in_pip in_stdlib follow_pip follow_stdlib imports_in (U : list string) (B : nat),
+  forall module_of origin_of blacklisted in_pip in_stdlib follow_pip follow_stdlib imports_in has_source (U : list string) (B : nat),
     (forall q mn o, module_of q = Some mn -> origin_of mn = Some o -> In o U) ->
     (forall o, List.length (imports_in o) <= B) ->
     forall fuel queue seen acc,
       List.length queue + ImpProofs.unseen U seen * B + 1 <= fuel ->
-      Imports.bfs module_of origin_of blacklisted in_pip in_stdlib follow_pip follow_stdlib imports_in fuel queue seen acc <> None.
+      Imports.bfs module_of origin_of blacklisted in_pip in_stdlib follow_pip follow_stdlib imports_in has_source fuel queue seen acc <> None.
 Proof. intros. eapply bfs_terminates; eassumption. Qed.
 Print Assumptions C07_import_bfs_terminates.
 
@@ -38,8 +38,11 @@ Theorem C07_unnameable_receiver_refuted :
   /\ fst (analyse no_modules None w_del (init_state [[]])) = Raise "RattrBinOpInNameable"
   /\ fst (analyse no_modules None w_for (init_state [[]])) = Raise "RattrBinOpInNameable".
 Proof. exact store_through_unnameable_receiver_raises. Qed.
-(* ... and does not terminate on a re-export cycle (finding KF_C07_6 = KF_C06_4) *)
-Theorem C07_reexport_cycle_never_ends :
-  forall fuel, resolve_import ex_locator no no no true false false fuel cyc "f" "a.f" = RFuel.
-Proof. exact reexport_cycle_refuted. Qed.
+(* the import resolver terminates in every environment, re-export cycles included (after fix 99a8b20) *)
+Theorem C07_import_resolver_terminates :
+  forall module_of blacklisted in_pip in_stdlib follow_local follow_pip follow_stdlib irs (Q : list string),
+    (forall m ln n q, In m irs -> clookup (m_ctx m) ln = Some (MImport n q) -> In q Q) ->
+    forall fuel vis tn tq, In tq Q -> unvisited Q vis + 1 <= fuel ->
+      resolve_import module_of blacklisted in_pip in_stdlib follow_local follow_pip follow_stdlib fuel irs vis tn tq <> RFuel.
+Proof. intros. eapply resolve_never_out_of_fuel; eassumption. Qed.
 Print Assumptions C07_unnameable_receiver_refuted.
